@@ -55,7 +55,7 @@ func srvRun(args []string) error {
 	rlen := fs.Int("len", 40, "length of random sequences")
 	seed := fs.Int64("seed", 1, "seed")
 	profile := fs.String("profile", "mixed", "random profile: mixed | elec | fsm | ops | get | flush")
-	getStall := fs.Duration("getstall", 0, "one Get of this run is read by a consumer that stalls for this long after the first response")
+	getStall := fs.Duration("getstall", 0, "Gets marked stall (and one other Get of this run) are read by a consumer that stalls for this long after the first response")
 	fs.Parse(args)
 	w, err := os.Create(*out)
 	if err != nil {
